@@ -142,3 +142,18 @@ pub fn fetch_word_equiv(other: usize) {
     let i = any_ram_index();
     assert!(a.bus().memory()[i] == b.bus().memory()[i], "same RAM effect");
 }
+
+/// End of an instruction whose last word took the interrupt branch: an 'int:' word is current, nothing
+/// but the instruction's own effect has happened yet, and the sampled flip-flop is cleared.
+pub fn end_at_int(m: &RawMachine, a: &mut Arch, edges: u32, len: u32, pre_wait: bool, timing: bool) {
+    let waits = a.waits;
+    if timing {
+        assert!(!m.verif_pending_wait(), "C15: the 'int:' word does not touch the bus");
+        assert!(edges == len + pre_wait as u32 + waits, "C15: edges = micro-steps + one wait per RAM access");
+    } else {
+        cmp_regs(m, a);
+        cmp_bus(m, a);
+        assert!(!m.verif_pending_edge_interrupt(), "C04: the key flip-flop is cleared by the sampling word");
+        assert!(!m.is_instruction_done(), "the interrupt entry routine follows before the next instruction boundary");
+    }
+}
